@@ -502,16 +502,20 @@ func (c *Ctx) checkDeltaSides() {
 				continue
 			}
 			w, g := 0, 0
+			var wSites, gSites []ssa.CallInstruction
 			for _, cs := range c.callersOf(fn) {
 				args := cs.Site.Common().Args
 				if i >= len(args) {
 					continue
 				}
-				if derivesAny(args[i], isAny(wantFs)) {
+				isW, isG := derivesAny(args[i], isAny(wantFs)), derivesAny(args[i], isAny(givenFs))
+				if isW && !isG {
 					w++
+					wSites = append(wSites, cs.Site)
 				}
-				if derivesAny(args[i], isAny(givenFs)) {
+				if isG && !isW {
 					g++
+					gSites = append(gSites, cs.Site)
 				}
 			}
 			switch {
@@ -519,6 +523,19 @@ func (c *Ctx) checkDeltaSides() {
 				side[p] = "want"
 			case g > 0 && w == 0:
 				side[p] = "given"
+			case w > g:
+				// the call sites disagree: the minority passes the other side for this parameter
+				side[p] = "want"
+				for _, s := range gSites {
+					r.Fail("C05.4d-delta-sides", fmt.Sprintf("%s: call at %s passes a want-side mode for parameter %s", fk(fn), fk(s.Parent()), p.Name()), c.pos(s),
+						"this call site passes a given-side mode where every other call site passes the want side: the notification's deltas are computed against swapped baselines")
+				}
+			case g > w:
+				side[p] = "given"
+				for _, s := range wSites {
+					r.Fail("C05.4d-delta-sides", fmt.Sprintf("%s: call at %s passes a given-side mode for parameter %s", fk(fn), fk(s.Parent()), p.Name()), c.pos(s),
+						"this call site passes a want-side mode where every other call site passes the given side: the notification's deltas are computed against swapped baselines")
+				}
 			}
 		}
 		if len(side) < 2 {
